@@ -1,7 +1,7 @@
 """Per-property configuration of ./check (which theorems, suites, oracle, budgets)."""
 
 # model .vo files the extracted driver depends on (built before extraction)
-MODEL_VO = ["Base.vo", "GoOps.vo", "Gen/Tables.vo", "Gen/Preds.vo", "Token.vo", "VLQ.vo", "SourceMap.vo", "Lexer.vo"]
+MODEL_VO = ["Base.vo", "GoOps.vo", "Gen/Tables.vo", "Gen/Preds.vo", "Token.vo", "VLQ.vo", "SourceMap.vo", "Lexer.vo", "Tree.vo", "Writer.vo", "PrinterLib.vo", "Gen/Printer.vo", "Compile.vo", "Parser.vo", "Registry.vo"]
 
 TRUSTED_BASE = [
     "Coq 8.16.1 kernel (coqc, full .vo build; coqchk re-check in the thorough tier); vm_compute used for finite sweeps; native_compute not used",
@@ -25,5 +25,20 @@ PROPS = {
             "Names are compared as byte strings; JSON serialisation of SourceMap is outside the property",
         ],
         trusted_extra=["specification side: VLQ.decode_vlq, SourceMap.decode_mappings, SourceMap.breaks/tail_len (written from the Source Map v3 text, share no code with the encoder)"],
+    ),
+    "C10": dict(
+        suites=[dict(suite="lex", n_quick=4000, n_thorough=200000,
+                     what="byte strings: every field of the first len+3 tokens")],
+        oracle_n_quick=4000, oracle_n_thorough=200000,
+        explanation="C10 full: tokenization of every byte string terminates with the first EOF token (fuel never exhausted); "
+                    "gaps+lexemes tile the source, gaps are whitespace and // comments only, non-EOF tokens consume >= 1 byte; "
+                    "start = position of first byte, end on or just after the last byte, inside the source; identifier/keyword/number "
+                    "literals are their source slice and keyword classification is the keyword table; after-newline flag = gap contains LF; "
+                    "EOF is a fixed point reported at the end of the source.",
+        assumptions=[
+            "positions are (count of LF, bytes since last LF); a bare CR is whitespace, not a line terminator",
+            "the model reads a list of bytes; Go string indexing and strings.Builder are trusted to behave like list operations",
+        ],
+        trusted_extra=["specification side: LexSpec.v (consumed, spans, is_trivia, token_positions_ok), Base.pos_of_offset"],
     ),
 }
